@@ -64,7 +64,7 @@ def glob2re(pat):
                 res = '%s[%s]' % (res, stuff)
         else:
             res = res + re.escape(c)
-    return res + '\Z(?ms)'
+    return '(?ms)' + res + r'\Z'
 
 
 class FindInList(FindByGlob):
